@@ -135,3 +135,8 @@ pub proof fn lemma_first_line_no_nl(t: Seq<char>)
         assert(first_line_of(t) =~= Seq::<char>::empty());
     }
 }
+
+// ---- Control: binary paragraphs -------------------------------------------------------------------
+pub open spec fn has_package(p: Seq<(Seq<char>, Seq<char>)>) -> bool { first_idx(p, "Package"@) >= 0 }
+pub open spec fn binary_views(s: Seq<control::Binary>) -> Seq<Seq<(Seq<char>, Seq<char>)>> { s.map_values(|b: control::Binary| b.0@) }
+pub open spec fn para_views(s: Seq<deb822_lossless::Paragraph>) -> Seq<Seq<(Seq<char>, Seq<char>)>> { s.map_values(|x: deb822_lossless::Paragraph| x@) }
